@@ -165,6 +165,16 @@ async def scenario(a, b, cfg, tap, marks):
         else:
             await negotiate(a, b)
         marks["negotiating"] = False
+        if cfg.get("ice_fails"):
+            # the remote side goes away before connectivity is established: every check of A stays unanswered and its ICE
+            # transports fail through connect() (STUN retry timers shortened by the caller, as the repository's tests do)
+            await asyncio.wait_for(b.pc.close(), 20)
+            t0 = time.monotonic()
+            while time.monotonic() - t0 < 8.0 and a.pc.iceConnectionState not in ("failed", "closed"):
+                await asyncio.sleep(0.02)
+            marks["ice_failed"] = a.pc.iceConnectionState == "failed"
+            await asyncio.sleep(0.1)
+            return
         t0 = time.monotonic()
         while time.monotonic() - t0 < 3.0:
             if a.pc.connectionState == "connected" and b.pc.connectionState == "connected":
@@ -178,6 +188,21 @@ async def scenario(a, b, cfg, tap, marks):
                 if ch.readyState == "open":
                     ch.send("hello")
         await asyncio.sleep(0.1)
+        if cfg.get("sctp_aborted") and b.pc.sctp is not None and a.pc.sctp is not None:
+            # the remote SCTP association is torn down (ABORT) while DTLS stays up; the application, unaware, creates one more channel
+            await asyncio.wait_for(b.pc.sctp.stop(), 10)
+            await asyncio.sleep(0.2)
+            marks["sctp_aborted"] = a.pc.sctp.state == "closed"
+            try:
+                if a.pc.signalingState == "closed":
+                    return  # close() was injected meanwhile: a channel created after close() is not this property's business
+                ch = a.pc.createDataChannel("late")
+                a.channels.append(ch)
+                tap.attach(a.name, ch, "channel late", ["open", "close", "message", "bufferedamountlow"])
+            except Exception as exc:
+                marks["late_channel_error"] = repr(exc)[:100]
+            await asyncio.sleep(0.1)
+            return
         # the application closes one of its channels: the stream reset handshake is now in flight
         for p in (a, b):
             for ch in p.channels[:1]:
@@ -238,6 +263,12 @@ async def run_once(cfg, mode, fire_at, out, desc, counter):
     except Exception:
         pass
     steps = counter.n
+    if marks.get("ice_failed"):
+        out.counters["runs_with_ice_failed_before_close"] += 1
+    if marks.get("sctp_aborted"):
+        out.counters["runs_with_sctp_aborted_before_close"] += 1
+    if marks.get("waiting_for_candidates"):
+        out.counters["runs_closed_while_waiting_for_candidates"] += 1
     if fire_at is None and mode == "after-channel-close":
         steps = marks.get("channel_close_step") or steps  # baseline reports where channel.close() happened
     if not close_tasks:
@@ -407,11 +438,29 @@ def run_case(index, rng, tier):
     mode = MODES[index % len(MODES)]
     if index % 5 == 3:
         cfg["trickle"] = "never" if index % 10 == 3 else "late"
-    key = config_key(cfg) + (cfg.get("trickle"),)
-    desc = {"config": repr(key)[:600], "mode": mode, "trickle": cfg.get("trickle")}
+    elif index % 10 == 4:
+        cfg["sctp_aborted"] = True
+        if not any(i[0] == "dc" for i in cfg["offerer"]["items"]):
+            cfg["offerer"]["items"].append(("dc", "chat", None, False))
+    elif index % 10 == 6:
+        cfg["ice_fails"] = True
+        mode = "offerer" if index % 20 == 6 else "twice"
+    key = config_key(cfg) + (cfg.get("trickle"), cfg.get("ice_fails"), cfg.get("sctp_aborted"))
+    desc = {"config": repr(key)[:600], "mode": mode, "trickle": cfg.get("trickle"), "ice_fails": cfg.get("ice_fails"), "sctp_aborted": cfg.get("sctp_aborted")}
     counter = Counter()
 
     def one(fire_at):
+        import aioice.stun
+
+        saved = (aioice.stun.RETRY_MAX, aioice.stun.RETRY_RTO)
+        if cfg.get("ice_fails"):
+            aioice.stun.RETRY_MAX, aioice.stun.RETRY_RTO = 1, 0.1
+        try:
+            return _one(fire_at)
+        finally:
+            aioice.stun.RETRY_MAX, aioice.stun.RETRY_RTO = saved
+
+    def _one(fire_at):
         async def go():
             counter.install(asyncio.get_running_loop())
             try:
